@@ -84,8 +84,30 @@ def rule_declare_path(check):
     ids = [fl["e"] for n in hir.walk(iv.body) if n.get("k") == "Struct" and (n["res"].get("path") or "").endswith("BindingIdent") for fl in n["fields"] if fl["name"] == "id"]
     ok = len(ids) == 1 and all(r[0] == "param" and r[2] == 0 for r, p in pv.origins(iv, ids[0]))
     check.expect(ok, R, R + "/each-ident", hir.loc(iv.rec), "one declarator per registered identifier", "declarators are not built from the registered identifiers")
-    fe = [n for n in hir.calls_in(iv.body, name="for_each")]
-    src_ok = bool(fe) and all(c[0] in ("iter",) for c in _chain_names(hir.call_args(fe[0])[0]))
+    # the declarator is built once per element of a complete iteration over the identifiers:
+    # idents.iter().for_each(|i| push(..)), idents.iter().map(|i| ..).collect(), or `for i in idents`
+    src_ok = False
+    lit_ids = {id(x) for x in hir.walk(iv.body)}
+    for n in iv.nodes():
+        if n.get("k") == "MethodCall" and n["method"] in ("for_each", "map"):
+            cl = [a for a in n["args"] if hir.peel(a).get("k") == "Closure"]
+            if cl and any(x.get("k") == "Struct" and (x["res"].get("path") or "").endswith("BindingIdent") for x in hir.walk(cl[0])):
+                chain = [c[0] for c in _chain_names(n["recv"])]
+                root = n["recv"]
+                while hir.peel(root).get("k") == "MethodCall":
+                    root = hir.peel(root)["recv"]
+                whole = all(c in ("iter", "into_iter", "cloned", "copied") for c in chain) and bool(hir.local_of(root)) and iv.bindings()[hir.local_of(root)[0]]["origin"][:2] == ("param", 0)
+                src_ok = src_ok or whole
+        if n.get("k") == "Match" and n.get("source", "").startswith("ForLoopDesugar"):
+            it = hir.peel(n["scrut"])
+            if hir.is_call(it) and hir.call_args(it):
+                a0 = hir.peel(hir.call_args(it)[0])
+                chain = [c[0] for c in _chain_names(a0)]
+                root = a0
+                while hir.peel(root).get("k") == "MethodCall":
+                    root = hir.peel(root)["recv"]
+                if all(c in ("iter", "into_iter") for c in chain) and hir.local_of(root) and iv.bindings()[hir.local_of(root)[0]]["origin"][:2] == ("param", 0) and any(x.get("k") == "Struct" and (x["res"].get("path") or "").endswith("BindingIdent") for x in hir.walk(n)):
+                    src_ok = True
     check.expect(src_ok, R, R + "/all-idents", hir.loc(iv.rec), "iterates all registered identifiers", "not every registered identifier is declared")
     # same helper for names and for the refused prefix
     nm = prog.fn("visitor_util::get_dd_local_variable_name")
